@@ -194,7 +194,36 @@ def builder_fn_early(L, name):
 
 
 def operand(td):
-    return ('#operand', td)
+    """a real Operand term whose type_desc() is td: a Local for concrete types, a Constant for the literal kinds.
+    Operand::type_desc, ConstantValue::type_desc and ensure_concrete_string are then EVALUATED, not modelled."""
+    if td[0] == 'Concrete':
+        return ('Local', ('#struct', 'Local', {'name': ('LocalRef', 0), 'ty': td[1], 'byte_range': ('#range',)}))
+    value = {'ConstInteger': ('Integer', 1), 'ConstString': ('CString', ('#str',)), 'NullPointer': ('NullPointer',), 'EmptyList': ('EmptyList',)}[td[0]]
+    return ('Constant', ('#struct', 'Constant', {'value': value, 'byte_range': ('#range',)}))
+
+
+CONST_TD = {'Bool': ('Concrete', BOOL), 'Integer': ('ConstInteger',), 'Float': ('Concrete', DOUBLE), 'CString': ('ConstString',), 'QString': ('Concrete', STRING),
+            'NullPointer': ('NullPointer',), 'EmptyList': ('EmptyList',)}
+
+
+def op_type(term):
+    """TypeDesc of an operand term (python side, for reading results)."""
+    if isinstance(term, tuple) and term and term[0] == 'Local':
+        return ('Concrete', term[1][2]['ty'])
+    if isinstance(term, tuple) and term and term[0] == 'Constant':
+        return CONST_TD.get(term[1][2]['value'][0])
+    return None
+
+
+def op_rvalue(term):
+    return term[1][2].get('rv') if isinstance(term, tuple) and term and term[0] == 'Local' else None
+
+
+def result_type(got):
+    if not (isinstance(got, tuple) and got and got[0] == 'Ok'):
+        return None
+    t = op_type(got[1])
+    return t[1] if t is not None and t[0] == 'Concrete' else ('?', got[1])
 
 
 def base_stubs():
@@ -206,12 +235,12 @@ def base_stubs():
 
 
 def dyn_interp(L):
-    """Interpreter for the dynamic emitters of tir::builder: operands are ('#operand', TypeDesc[, rvalue ctor])."""
+    """Interpreter for the dynamic emitters of tir::builder. Stubbed: the effects (emit_result allocates a temporary of the given
+    type and remembers the rvalue constructor) and strings. Evaluated: every typing decision, including Operand::type_desc,
+    ConstantValue::type_desc and ensure_concrete_string."""
     stubs4 = base_stubs()
     stubs4.update({
-        'type_desc': lambda a: a[0][1] if isinstance(a[0], tuple) and a[0][0] == '#operand' else (_ for _ in ()).throw(aeval.Undecided('type_desc of %r' % (a[0],))),
-        'builder::ensure_concrete_string': lambda a: operand(after_ensure(a[0][1])),
-        'CodeBuilder::emit_result': lambda a: operand(('Concrete', a[1])),
+        'CodeBuilder::emit_result': lambda a: ('Local', ('#struct', 'Local', {'name': ('LocalRef', 1), 'ty': a[1], 'byte_range': ('#range',), 'rv': a[2][0] if isinstance(a[2], tuple) and a[2] else '?'})),
         'to_string': lambda a: ('#str',),
         'qualified_name': lambda a: ('#str',),
         'qualified_cxx_name': lambda a: ('#str',),
@@ -231,7 +260,7 @@ def dyn_binary(I4, cls, op, l, r):
     """result TypeKind term, None (rejected) or 'undecided:..' for a dynamic binary expression."""
     try:
         got = I4.call(EMIT_BINARY, [('#self',), (cls, (op,)), operand(l), operand(r), ('#range',)], 0)
-        return got[1][1][1] if got[0] == 'Ok' else None
+        return result_type(got)
     except aeval.Undecided as e:
         return 'undecided:%s' % e
 
@@ -239,7 +268,7 @@ def dyn_binary(I4, cls, op, l, r):
 def dyn_unary(I4, cls, op, t):
     try:
         got = I4.call(EMIT_UNARY, [('#self',), (cls, (op,)), operand(t), ('#range',)], 0)
-        return got[1][1][1] if got[0] == 'Ok' else None
+        return result_type(got)
     except aeval.Undecided as e:
         return 'undecided:%s' % e
 
@@ -247,7 +276,7 @@ def dyn_unary(I4, cls, op, t):
 def dyn_builtin(I4, kind, args):
     try:
         got = I4.call(VISIT_BUILTIN, [('#self',), kind, ('#vec',) + tuple(operand(a) for a in args), ('#range',)], 0)
-        return got[1][1][1] if got[0] == 'Ok' else None
+        return result_type(got)
     except aeval.Undecided as e:
         return 'undecided:%s' % e
 
@@ -273,7 +302,8 @@ def run(ck):
                       ('R5.4', 'operators accept exactly their documented operand types'),
                       ('R5.5', 'conditions must be bool'),
                       ('R5.6', 'type and access checks dominate code emission'),
-                      ('R5.7', 'the result type accounts for every return')):
+                      ('R5.7', 'the result type accounts for every return'),
+                      ('R5.8', 'constants and operands have the type their kind prescribes')):
         ck.rule(rid, text)
 
     stubs = base_stubs()
@@ -356,7 +386,7 @@ def run(ck):
                         exp = expected_binary(cls, op, l, r)
                         try:
                             got = I4.call(eb, [('#self',), (cls, (op,)), operand(l), operand(r), ('#range',)], 0)
-                            g = got[1][1][1] if got[0] == 'Ok' else None
+                            g = result_type(got)
                         except aeval.Undecided as e:
                             g = 'undecided:%s' % e
                         res[op] = (g, exp)
@@ -375,7 +405,7 @@ def run(ck):
                     exp = expected_unary(cls, t)
                     try:
                         got = I4.call(eu, [('#self',), (cls, (op,)), operand(t), ('#range',)], 0)
-                        g = got[1][1][1] if got[0] == 'Ok' else None
+                        g = result_type(got)
                     except aeval.Undecided as e:
                         g = 'undecided:%s' % e
                     n4 += 1
@@ -384,7 +414,6 @@ def run(ck):
                           'unary %s %s on %s is %s, documented: %s' % (cls, op, nm(t), ('accepted -> ' + (nm(g) if isinstance(g, tuple) else str(g))) if g else 'rejected', ('accepted -> ' + nm(exp)) if exp else 'rejected'))
     ck.floor('R5.4', n4, 1600, 'operator x operand-type cells')
     # `as` casts, subscripts, builtin calls: the same evaluation, over their own tables
-    stubs4['CodeBuilder::emit_result'] = lambda a: ('#operand', ('Concrete', a[1]), a[2][0] if isinstance(a[2], tuple) else '?')
     va = '<tir::builder::CodeBuilder as typedexpr::ExpressionVisitor>::visit_as_expression'
     RV = {'Noop': None, 'Implicit': 'Copy', 'Static': 'StaticCast', 'Variant': 'VariantCast'}
     n_as = 0
@@ -401,10 +430,10 @@ def run(ck):
                     ok = got[0] == 'Err'
                     want = 'rejected'
                 elif kind == 'Noop':
-                    ok = got == ('Ok', operand(after_ensure(act)))
+                    ok = got[0] == 'Ok' and op_type(got[1]) == after_ensure(act) and op_rvalue(got[1]) is None
                     want = 'the value itself'
                 else:
-                    ok = got[0] == 'Ok' and got[1][1:] == (('Concrete', exp), RV[kind])
+                    ok = got[0] == 'Ok' and op_type(got[1]) == ('Concrete', exp) and op_rvalue(got[1]) == RV[kind]
                     want = '%s to %s' % (RV[kind], nm(exp))
                 n_as += 1
                 ck.ob('R5.2', 'as|%s as %s' % (nm(act), nm(exp)), ok, '', want if ok else '`%s as %s` gives %r, documented: %s' % (nm(act), nm(exp), got, want))
@@ -432,7 +461,7 @@ def run(ck):
         def bcall(kind, args):
             try:
                 got = I4.call(vb, [('#self',), kind, ('#vec',) + tuple(operand(a) for a in args), ('#range',)], 0)
-                return got[1][1][1] if got[0] == 'Ok' else None
+                return result_type(got)
             except aeval.Undecided as e:
                 return 'undecided:%s' % e
         for kind in ('Max', 'Min'):
@@ -537,6 +566,55 @@ def run(ck):
                     ck.ob('R5.4', 'const~dynamic|%s|%s|%s' % (fn['name'].replace('eval_', '').replace('_expression', ''), '/'.join(kinds), op), dyn is not None, L.loc(arm),
                           'folder admits %s on %s constants and so does the dynamic path' % (op, kinds) if dyn is not None else
                           'the constant folder admits %s %s on %s constants but the dynamic path rejects the same operand types: the two implementations of one operator disagree' % (cls, op, kinds))
+
+    # ---- R5.8 what type a constant / operand has ------------------------------------------------------------------------------
+    ctd = next((f for f in L.fn_list if f['path'].startswith('<tir::core::ConstantValue as') and f['name'] == 'type_desc'), None)
+    otd = next((f for f in L.fn_list if f['path'].startswith('<tir::core::Operand as') and f['name'] == 'type_desc'), None)
+    n8 = 0
+    if ctd is None or otd is None:
+        ck.floor('R5.8', 0, 2, 'type_desc of ConstantValue / Operand')
+    else:
+        ck.analysed(ctd['path'])
+        ck.analysed(otd['path'])
+        samples = {'Bool': ('Bool', True), 'Integer': ('Integer', 1), 'Float': ('Float', 1.5), 'CString': ('CString', ('#str',)), 'QString': ('QString', ('#str',)),
+                   'NullPointer': ('NullPointer',), 'EmptyList': ('EmptyList',)}
+        variants = [v['name'] for v in (L.adts.get('tir::core::ConstantValue') or {}).get('variants', [])]
+        ck.ob('R5.8', 'constant-kinds-known', sorted(variants) == sorted(samples), '', 'ConstantValue variants: %s' % variants)
+        for name, val in samples.items():
+            try:
+                got = I4.call(ctd['path'], [val], 0)
+            except aeval.Undecided as e:
+                got = ('undecided', str(e))
+            n8 += 1
+            ck.ob('R5.8', 'constant-type|%s' % name, got == CONST_TD[name], L.loc(ctd['body']), 'a %s constant has type %s' % (name, nm(got) if got == CONST_TD[name] else got))
+        ops = {'Local': (operand(('Concrete', INT)), ('Concrete', INT)),
+               'NamedObject': (('NamedObject', ('#struct', 'NamedObject', {'name': ('NamedObjectRef', ('#str',)), 'cls': 'A', 'byte_range': ('#range',)})), ('Concrete', ('Pointer', ('Class', 'A')))),
+               'EnumVariant': (('EnumVariant', ('#struct', 'EnumVariant', {'ty': 'E1', 'variant': ('#str',), 'byte_range': ('#range',)})), ('Concrete', E1)),
+               'Void': (('Void', ('#struct', 'Void', {'byte_range': ('#range',)})), ('Concrete', VOID)),
+               'Constant': (operand(('ConstInteger',)), ('ConstInteger',))}
+        ovariants = [v['name'] for v in (L.adts.get('tir::core::Operand') or {}).get('variants', [])]
+        ck.ob('R5.8', 'operand-kinds-known', sorted(ovariants) == sorted(ops), '', 'Operand variants: %s' % ovariants)
+        for name, (term, want) in ops.items():
+            try:
+                got = I4.call(otd['path'], [term], 0)
+            except aeval.Undecided as e:
+                got = ('undecided', str(e))
+            n8 += 1
+            ck.ob('R5.8', 'operand-type|%s' % name, got == want, L.loc(otd['body']), 'a %s operand has type %s' % (name, nm(got) if got == want else got))
+        ecs = L.fns.get('tir::builder::ensure_concrete_string')
+        if ecs is not None:
+            ck.analysed(ecs['path'])
+            for name, val in samples.items():
+                term = ('Constant', ('#struct', 'Constant', {'value': val, 'byte_range': ('#range',)}))
+                try:
+                    got = I4.call(ecs['path'], [term], 0)
+                    gt = op_type(got)
+                except aeval.Undecided as e:
+                    gt = ('undecided', str(e))
+                want = after_ensure(CONST_TD[name])
+                n8 += 1
+                ck.ob('R5.8', 'ensure-concrete-string|%s' % name, gt == want, L.loc(ecs['body']), 'a %s constant operand is handed on as %s' % (name, nm(gt) if gt == want else gt))
+    ck.floor('R5.8', n8, 19, 'constant/operand typing cells')
 
     # ---- R5.5 conditions ---------------------------------------------------------------------------------------
     cc = L.fn('typedexpr::check_condition_type')
